@@ -82,6 +82,22 @@ def check(repo: Repo, rep: Report) -> None:
                      ("reactivex/observable/groupedobservable.py", "GroupedObservable._subscribe_core")):
         TC.rule_scheduler_forwarded(rep, "F0-scheduler-forwarded", repo.fn(rel_, q_))
     TC.rule_fanout_loops(rep, "G3-terminal-fan-out", root)
+    # the fan-out iterates a snapshot of the group map: ending a group can expire it synchronously (a duration derived from
+    # the group itself) and `expire` deletes from the map
+    for g_ in root.walk():
+        if not g_.is_func:
+            continue
+        for nd in g_.direct_nodes():
+            if isinstance(nd, ast.For) and any(isinstance(x, ast.Name) and x.id == writers for x in ast.walk(nd.iter)) and any(
+                    isinstance(c, ast.Call) and isinstance(c.func, ast.Attribute) and c.func.attr in ("on_next", "on_error", "on_completed")
+                    for st in nd.body for c in ast.walk(st)):
+                it = nd.iter
+                snap = isinstance(it, ast.Call) and ((isinstance(it.func, ast.Name) and it.func.id in ("list", "tuple", "sorted"))
+                                                     or (isinstance(it.func, ast.Attribute) and it.func.attr == "copy"))
+                rep.ob("G3-terminal-fan-out", g_, f"{g_.qual}: `for {u(nd.target)} in {short(it, 40)}` iterates a snapshot of the group map", snap,
+                       f"{g_.qual} fans a notification out over the live group map `{u(it)}`: a group whose duration ends with the "
+                       f"group itself is expired from inside that call (`del {writers}[key]`), the iteration raises RuntimeError, the "
+                       f"remaining groups and the subscriber never receive the terminal notification")
     TC.pipelines_exact(repo, rep, "G2-expiry", {(GBU, "group_by_until_"): [["take"]]})
     tk = [n for n in root.all_nodes() if isinstance(n, ast.Call) and call_name(n) == "take"]
     rep.ob("G2-expiry", root, "the duration sequence is observed through take(1): its first element *or* its completion expires the group",
